@@ -200,7 +200,8 @@ def execute(sc, sim):
                "shared_linearization_sequence", "other_platform_refused",
                "grammar_grows_between_two_lopar_writes", "grown_grammar_no_longer_context_free",
                "own_reader_after_reading_another_grammar",
-               "other_format_written_to_same_prefix")
+               "other_format_written_to_same_prefix",
+               "refused_lopar_write_to_same_prefix_afterwards")
     viols = []
     fmt, enc = sc["fmt"], sc["enc"]
     tb = sc["tb"]
@@ -327,6 +328,30 @@ def execute(sc, sim):
                             memflat, memlex, st, tag="after-other-format", history=False)
             if v:
                 v["sig"] = v["sig"].replace("C09/", "C09/after-other-format-to-same-prefix/")
+                return done(sc, st, [v])
+    # ---- a LoPar write of the same (non-context-free) grammar to the same prefix is refused
+    #      afterwards: a refusal writes nothing, the files of the first call stay what they were
+    if fmt != "lopar" and sc["path"] == "api" and not sc.get("prior") and not mem_cf \
+            and sc["platform"] == "Linux" and sc["io_seed"] % 3 == 0:
+        st.probe("refused_lopar_write_to_same_prefix_afterwards")
+        st.fault("history")
+        st.fault("failed_call")
+        var = "b" if sc["mode"] is not None else "g"
+        ops = api_ops(dict(sc, second_write=None))
+        ops.append(["gwrite", "lopar", var, OUT, sc["enc"], {}])
+        obsr = sim.run(dict(base, sessions=[{"id": "s", "ops": ops}]))
+        st.add_obs(obsr)
+        wr = [r for r in obsr["sessions"]["s"] if r["op"] == "gwrite"]
+        if not obsr.get("hang") and len(wr) == 2 and "exc" not in wr[0]:
+            if "exc" not in wr[1]:
+                return done(sc, st, [cm.viol(
+                    "C09/lopar/non-context-free-grammar-not-refused/second-write")])
+            mine = dict((p, d) for p, d in obsr["files"].items()
+                        if p in [OUT + e for e in FILES[fmt]])
+            v = judge_files(sc, {"files": mine, "writelog": [], "unclosed_at_return": []},
+                            memflat, memlex, st, tag="after-refused-lopar", history=False)
+            if v:
+                v["sig"] = v["sig"].replace("C09/", "C09/after-refused-lopar-write-to-same-prefix/")
                 return done(sc, st, [v])
     # ---- the written grammar grows and is written again (LoPar: the refusal must follow)
     if sc.get("grow") and fmt == "lopar" and sc["path"] == "api" and mem_cf:
